@@ -353,6 +353,18 @@ TRUSTED_COMMON = [
 ]
 
 
+REST_AREAS = {
+    # the other executors (docker, http, jq, mail, ssh, sub-workflow): what a step "executes", how it is killed, where its output goes
+    "ExecRest": {"C01", "C02", "C03", "C04", "C05", "C10", "C11", "C12", "C15"},
+    # reporter / mailer / logger / config resolver / constants: what is reported after a run, where logs are opened
+    "Report": {"C04", "C05", "C08", "C12", "C16"},
+    # the daemon's file watcher (new / changed / removed DAG files reach the entry reader through it)
+    "Notify": {"C09", "C13"},
+    # the go-swagger generated server, parameter binding / validation, models, routes: every API request passes through it
+    "ApiGen": {"C17", "C18", "C20"},
+}
+
+
 def lean_obligations(chk, props_rel, tie=None, extra_targets=None, extra_props=None):
     """Everything on the Lean side for one property:
        props_rel : e.g. 'BdModel/Props/C14.lean' (ends with #print axioms lines)
@@ -362,6 +374,10 @@ def lean_obligations(chk, props_rel, tie=None, extra_targets=None, extra_props=N
     # stores / sockets / server wiring): one skeleton per file, tied by every check
     if os.path.exists(os.path.join(LEAN, "BdModel", "Tie", "Glue.lean")):
         tie.setdefault("Glue", None)
+    # files no model area covers, tied (one skeleton per file) to the properties whose behaviour can pass through them
+    for area, props in REST_AREAS.items():
+        if chk.prop in props and os.path.exists(os.path.join(LEAN, "BdModel", "Tie", area + ".lean")):
+            tie.setdefault(area, None)
     # one check at a time between the extraction from ITS tree and the elaboration of the ties against it
     with Lock("lean-phase"):
         return _lean_obligations(chk, props_rel, tie, extra_targets, extra_props or [])
